@@ -183,6 +183,9 @@ func init() {
 		NotDecided:  "That the decoded strings equal the non-interned ones under every history (lookup correctness of Go maps is trusted; equality is a value statement); allocation behaviour.",
 		Assumptions: []string{"A3", "A5"},
 		Run: func(c *Ctx) {
+			// round 11: the interned codec is the type its users assert; the struct reader does not short-cut on the target's contents
+			ruleInternType(c)
+			ruleStructNoLoad(c)
 			ruleNoAliasDecode(c, func(f *ssa.Function) bool {
 				n := ssaFuncName(f)
 				return strings.Contains(n, "Interned") || strings.Contains(n, "interned")
